@@ -80,11 +80,22 @@ func HarnessC14Caps(st any) {
 			checkRecorder(w, g, "after Stream")
 		case 7: // String without verbs
 			code := sym.Int("code", 200, 599)
-			err := c.String(code, "hello")
+			var err error
+			wantBody := "hello"
+			switch sym.Choose("format", 3) {
+			case 0:
+				err = c.String(code, "hello")
+			case 1: // a format is a format whether or not values follow
+				err = c.String(code, "100%% sure")
+				wantBody = "100% sure"
+			case 2:
+				err = c.String(code, "%s-%d", "a", 7)
+				wantBody = "a-7"
+			}
 			sym.Assert(err == nil, "String succeeds")
 			sym.Assert(len(g.finals) == 1 && g.finals[0] == code, "String sends exactly the given status")
 			sym.Assert(g.hdr.Get("Content-Type") == fox.MIMETextPlainCharsetUTF8, "String defaults the content type to text/plain")
-			sym.Assert(string(g.body) == "hello", "String sends exactly the formatted text")
+			sym.Assert(string(g.body) == wantBody, "String sends exactly the formatted text")
 			checkRecorder(w, g, "after String")
 		case 8: // Redirect
 			code := sym.Int("code", 0, 999)
